@@ -69,13 +69,13 @@ __CPROVER_ensures(input_len - __CPROVER_return_value <= __CPROVER_return_value)
 ;
 
 static inline uint32_t load32(const void *src)
-__CPROVER_requires(__CPROVER_r_ok(src, 4))
+__CPROVER_requires(__CPROVER_is_fresh(src, 4))
 __CPROVER_assigns()
 __CPROVER_ensures(__CPROVER_return_value == SPEC_LOAD32((const uint8_t *)src, 0))
 ;
 
 static inline void store32(void *dst, uint32_t w)
-__CPROVER_requires(__CPROVER_w_ok(dst, 4))
+__CPROVER_requires(__CPROVER_is_fresh(dst, 4))
 __CPROVER_assigns(__CPROVER_object_upto(dst, 4))
 __CPROVER_ensures(SPEC_LOAD32((uint8_t *)dst, 0) == w)
 ;
@@ -245,19 +245,17 @@ __CPROVER_assigns(__CPROVER_object_upto(out, 64 * outblocks))
  * value that is stored is the one returned and consists of feature bits only (so it can
  * never be mistaken for UNDEFINED again).  The asm cpuid/xgetbv blocks are nondeterministic
  * to CBMC, i.e. the proof holds for every CPU. */
-#define VERIF_FEATURE_BITS (SSE2 | SSSE3 | SSE41 | AVX | AVX2 | AVX512F | AVX512VL)
 static enum cpu_feature get_cpu_features(void)
 __CPROVER_requires(verif_obs_g_cpu_features(g_cpu_features))
-__CPROVER_requires(g_cpu_features == UNDEFINED || (g_cpu_features & ~VERIF_FEATURE_BITS) == 0)
+__CPROVER_requires(VERIF_GCPU_OK)
 __CPROVER_assigns(g_cpu_features)
 __CPROVER_ensures(__CPROVER_old(g_cpu_features) != UNDEFINED ==>
                   (g_cpu_features == __CPROVER_old(g_cpu_features)))
 __CPROVER_ensures((int)__CPROVER_return_value == g_cpu_features)
 __CPROVER_ensures((g_cpu_features & ~VERIF_FEATURE_BITS) == 0)
 ;
-#define VERIF_GCPU_OK (g_cpu_features == UNDEFINED || (g_cpu_features & ~VERIF_FEATURE_BITS) == 0)
 #else
-#define VERIF_GCPU_OK 1
+#error "the contracts are written for the x86-64 configuration"
 #endif
 
 #if defined(IS_X86) && !defined(BLAKE3_NO_AVX512)
@@ -380,6 +378,14 @@ __CPROVER_ensures(__CPROVER_return_value ==
                   (input_len < (size_t)(64 - __CPROVER_old(self->buf_len))
                        ? input_len : (size_t)(64 - __CPROVER_old(self->buf_len))))
 __CPROVER_ensures((size_t)self->buf_len == (size_t)__CPROVER_old(self->buf_len) + __CPROVER_return_value)
+#ifdef VERIF_EXACT_BYTES
+/* (unit chunk_state_fill_buf_bytes only: too slow for callers to carry around)
+ * the new bytes are the first `take` input bytes; every other buffer byte is unchanged */
+__CPROVER_ensures(__CPROVER_forall { size_t fi_; (fi_ < 64) ==>
+    ((fi_ >= (size_t)__CPROVER_old(self->buf_len) && fi_ < (size_t)self->buf_len)
+         ? self->buf[fi_] == input[fi_ - (size_t)__CPROVER_old(self->buf_len)]
+         : self->buf[fi_] == __CPROVER_old(*self).buf[fi_]) })
+#endif
 ;
 
 static inline uint8_t chunk_state_maybe_start_flag(const blake3_chunk_state *self)
